@@ -664,7 +664,8 @@ def _decide(cfg, out, paths, opts, mode):
             e = _float_raises(cfg, mode)
             if e is None:
                 out.status = "inconclusive"
-                out.detail = "symbolic run raised (%s) but the float64 run does not: harness limitation" % out.detail
+                out.detail = "unsupported by the symbolic engine: symbolic run raised (%s) but the float64 run does not" % out.detail
+                float_probe(cfg, out, mode)
             else:
                 out.status = "raises"
                 out.detail = exc_sig(e)
